@@ -7,7 +7,7 @@ from vlib import *
 ALL_RICH = ["sub", "bind", "unsub", "unbind", "write", "read", "entrem", "entadd", "discover", "disconnect",
             "lsub", "lbind", "lunsub", "lunbind", "listsubs", "listbinds"]
 ALL_COMPS = ["out", "ev", "ret", "conn", "known", "subs", "binds", "csub", "cbind", "data",
-             "panic", "dupout", "dupev", "ids", "resolve"]
+             "panic", "dupout", "dupev", "ids", "resolve", "tree"]
 
 COMP_MEANING = {
     "out": "replies/results/notifications written per connection", "ev": "events published", "ret": "API return",
@@ -205,6 +205,7 @@ def run(prop, tier, seed, P, replay=None):
                 print("replay: every step accepted by the specification")
             return 1 if bad else 0
         T = P[tier]
+        clear_replays(prop)
         # 1. design-level exhaustive check
         mcs = []
         for m in T["mc"]:
